@@ -21,6 +21,13 @@ def PyErr.name : PyErr → String
 abbrev Str := List Char
 abbrev Py := Except PyErr
 
+instance {ε α : Type} [DecidableEq ε] [DecidableEq α] : DecidableEq (Except ε α) := fun a b =>
+  match a, b with
+  | .ok x, .ok y => if h : x = y then isTrue (by rw [h]) else isFalse (fun e => h (Except.ok.inj e))
+  | .error x, .error y => if h : x = y then isTrue (by rw [h]) else isFalse (fun e => h (Except.error.inj e))
+  | .ok _, .error _ => isFalse (fun e => by cases e)
+  | .error _, .ok _ => isFalse (fun e => by cases e)
+
 /-- `s[0]` for a Python `str` (a string of length one, IndexError on the empty string) -/
 def pyHead (s : Str) : Py Str :=
   match s with
